@@ -428,10 +428,10 @@ def D5_torsion_table(repo, clause):
         h, e1, e2, want, got, i = first_bad
         detail = ("torsion case table DISAGREES with the documented UFF cases on %d of %d abstract combinations; e.g. hybridisations %s with central elements %s/%s: "
                   "documented %s, code path #%s gives %s") % (bad, total, h, e1, e2, show(want), i, show(got))
-    obs.append(Ob("D5", clause, fn, fn.node, bad == 0, detail, construct="def dihedral_params", slot="torsion-table", positive=True))
+    obs.append(Ob("D5", clause, fn, fn.node, bad == 0, detail, construct="def dihedral_params", slot="torsion-table", positive="robust"))
     for k, (n_all, n_bad) in sorted(per_case.items()):
         obs.append(Ob("D5", clause, fn, fn.node, n_bad == 0, "documented case %s: %d combinations, %d disagree" % (k, n_all, n_bad),
-                      construct="def dihedral_params case %s" % k, slot="torsion-case:%s" % k, positive=True))
+                      construct="def dihedral_params case %s" % k, slot="torsion-case:%s" % k, positive="robust"))
     return obs
 
 
